@@ -22,7 +22,6 @@ structure Ctx (T : Kind → Id → Prop) (L : Ledger) : Prop where
   base : ∀ k id, id ∈ baseIds L k → T k id
   nodup : ∀ k, (baseIds L k).Nodup
   fc1_bal : ∀ e ∈ L.fc1, sumVals e.fc.valid = sumVals e.fc.missed
-  fc2_missed : ∀ e ∈ L.fc2, e.fc.missedHost ≤ e.fc.host.value
 
 def ScOk (L : Ledger) (sp : List Id) (d : ScDiff) : Prop :=
   (d.created = true → d.e.id ∉ baseIds L .sc) ∧
